@@ -1057,7 +1057,44 @@ fn run_case(c: &Case, drv: &mut Driver, rep: Option<&mut Counters>) -> Outcome {
 
 const ERR_CODES: [u8; 8] = [0x00, 0x07, 0x0F, 0x17, 0x1D, 0x24, 0x2A, 0x2B];
 
+/// a long mostly-ASCII string (32..200 units, every length mod 4) with a few characters above U+00FF / U+007F at
+/// the end, the start or the middle: readers with an ASCII or Latin-1 fast path must not cut them
+fn gen_long_ascii_units(rng: &mut Rng) -> Vec<u16> {
+    let n = rng.range(32, 200) as usize;
+    let mut u: Vec<u16> = (0..n).map(|_| *rng.pick(&[0x20u16, 0x41, 0x61, 0x7A, 0x30, 0x39, 0x3A, 0x2E, 0x65])).collect();
+    let special: [u16; 8] = [0x20AC, 0x00E9, 0x4E2D, 0x0100, 0x0080, 0x00FF, 0x2019, 0x0416];
+    let k = rng.range(1, 3) as usize;
+    match rng.below(4) {
+        0 | 1 => {
+            // the last 1..3 units
+            for i in 0..k {
+                u[n - 1 - i] = *rng.pick(&special);
+            }
+        }
+        2 => {
+            for i in 0..k {
+                u[i] = *rng.pick(&special);
+            }
+        }
+        _ => {
+            let at = rng.below(n as u64 - 3) as usize;
+            for i in 0..k {
+                u[at + i] = *rng.pick(&special);
+            }
+        }
+    }
+    if rng.chance(1, 5) {
+        // a surrogate pair as the very last character
+        u[n - 2] = 0xD83D;
+        u[n - 1] = 0xDE00;
+    }
+    u
+}
+
 fn gen_units(rng: &mut Rng) -> Vec<u16> {
+    if rng.chance(1, 6) {
+        return gen_long_ascii_units(rng);
+    }
     let n = *rng.pick(&[0usize, 1, 1, 2, 3, 5, 8, 20, 130]);
     let n = if rng.chance(1, 400) { 9000 } else { n };
     let alpha: &[u16] = match rng.below(6) {
@@ -1870,6 +1907,17 @@ fn corpus() -> Vec<Case> {
         c.sheets[0].items.extend(tail);
         v.push(c);
     }
+    // long ASCII strings (32+ units, every length mod 4) ending in characters above U+00FF: inline, formula and shared
+    for n in [32usize, 33, 34, 35, 37, 63, 66] {
+        let mut u: Vec<u16> = (0..n).map(|i| 0x41 + (i % 26) as u16).collect();
+        u[n - 1] = 0x20AC;
+        if n % 2 == 1 {
+            u[n - 2] = 0x4E2D;
+        }
+        let mut c = base_case(vec![row(0), cell(0, 0, Kind::Str(u.clone()), false), cell(1, 0, Kind::Str(u.clone()), true), cell(2, 0, Kind::Isst(0), false)]);
+        c.sst = Some(vec![u]);
+        v.push(c);
+    }
     // container glue: relationships under a namespace prefix, absolute targets, a repeated id, non-ASCII ids
     // (the first two were defects: /repo c5d32d1, 7b4826f)
     for (tag, seed) in [("prefixed", 11u64), ("absolute", 12), ("dup", 13), ("plain", 14), ("plain", 15)] {
@@ -2162,7 +2210,7 @@ fn sweeps(args: &Args, rng: &mut Rng, drv: &mut Driver, rep: &mut Report) {
             0 => rbytes(rng, 12, 0),
             1 => {
                 let u = gen_units(rng);
-                let u = &u[..u.len().min(40)];
+                let u = &u[..u.len().min(220)];
                 let mut b = xlsbw::wide_units(u);
                 b.extend(rbytes(rng, 5, 0));
                 b
@@ -2306,6 +2354,81 @@ fn run_big_sst(n: usize, rep: &mut Report) {
     }
 }
 
+/// A sheet whose first row is as wide as the grid — one cell record per column 0..16383 — or holds more than 16384
+/// records under one BrtRowHdr (cells preceded by BrtCellMeta, blank cells, unknown records), followed by another
+/// row. Implementation against the description (the Lean model has no per-row state; its sheet theorem covers any
+/// interleaving). Replay form: `widerow <variant>`.
+fn run_wide_row(variant: u32, rep: &mut Report) {
+    let input = format!("widerow {variant}");
+    let f = xlsbw::Frame::default();
+    let mut part = vec![];
+    xlsbw::put_record(&mut part, 0x81, &[], f);
+    xlsbw::put_record(&mut part, 0x94, &[7, 0, 0, 0, 8, 0, 0, 0, 0, 0, 0, 0, 0xFF, 0x3F, 0, 0], f);
+    xlsbw::put_record(&mut part, 0x91, &[], f);
+    // (cells per row 7, extra record before a cell?) by variant
+    let ncols: u32 = if variant == 3 { 8200 } else { 16384 };
+    let mut want: BTreeMap<(u32, u32), Data> = BTreeMap::new();
+    xlsbw::put_record(&mut part, 0, &xlsbw::row_hdr(7), f);
+    for c in 0..ncols {
+        let extra = match variant {
+            0 => false,                // exactly 16384 records under the row header
+            1 => c == 16000,           // one uninterpreted record more
+            2 => c % 97 == 0,          // BrtCellMeta / unknown records now and then
+            3 => true,                 // 8200 cells, each preceded by BrtCellMeta: 16400 records
+            _ => c % 2 == 1,           // blank cells in between
+        };
+        if extra {
+            match variant {
+                4 => xlsbw::put_record(&mut part, 1, &xlsbw::BCell::new(xlsbw::BVal::Blank).payload(c), f),
+                2 if c % 2 == 0 => xlsbw::put_record(&mut part, 0x3FFF, &[1, 2, 3], f),
+                _ => xlsbw::put_record(&mut part, 0x31, &[1, 0, 0, 0], f), // BrtCellMeta
+            }
+        }
+        let cell = xlsbw::BCell::new(xlsbw::BVal::rk_int(c as i32 - 5, false));
+        xlsbw::put_record(&mut part, 2, &cell.payload(c), f);
+        want.insert((7, c), Data::Int(c as i64 - 5));
+    }
+    xlsbw::put_record(&mut part, 0, &xlsbw::row_hdr(8), f);
+    for c in [0u32, 5, ncols - 1] {
+        xlsbw::put_record(&mut part, 5, &xlsbw::BCell::new(xlsbw::BVal::real(c as f64 + 0.5)).payload(c), f);
+        want.insert((8, c), Data::Float(c as f64 + 0.5));
+    }
+    xlsbw::put_record(&mut part, 0x92, &[], f);
+    xlsbw::put_record(&mut part, 0x82, &[], f);
+    let mut b = XlsbBook::new();
+    let mut sh = XlsbSheet::new("Wide");
+    sh.raw = Some(part);
+    b.sheets.push(sh);
+    let file = b.to_bytes();
+    rep.case(&input, true);
+    rep.add("wide_row_cells", want.len() as u64);
+    let r = guarded(|| -> Result<String, String> {
+        let mut wb: Xlsb<_> = Xlsb::new(Cursor::new(file)).map_err(|e| err_class(&e))?;
+        let range = wb.worksheet_range("Wide").map_err(|e| err_class(&e))?;
+        if range.start() != Some((7, 0)) || range.end() != Some((8, ncols - 1)) {
+            return Err(format!("range {:?}..{:?}", range.start(), range.end()));
+        }
+        let n = range.used_cells().count();
+        if n != want.len() {
+            return Err(format!("{n} cells instead of {}", want.len()));
+        }
+        for ((r, c), v) in &want {
+            if range.get_value((*r, *c)) != Some(v) {
+                return Err(format!("cell ({r},{c}): {:?}", range.get_value((*r, *c))));
+            }
+        }
+        Ok("ok".into())
+    });
+    let (got, ok) = match r {
+        Ok(Ok(s)) => (s, true),
+        Ok(Err(e)) => (e, false),
+        Err(p) => (format!("panic:{p}"), false),
+    };
+    if !ok {
+        rep.fail("impl_vs_spec", "wide_row", &input, &got, "-", &format!("rows 7 and 8, columns 0..{}, {} cells, every value as stored", ncols - 1, want.len()));
+    }
+}
+
 type Fail = (String, String, String, String, String, String); // kind, sig, input, impl, model, expect
 
 /// shrink each failure whose signature this worker has not seen yet; returns the failures with their inputs
@@ -2414,6 +2537,11 @@ fn main() {
     let mut rng = Rng::new(args.seed);
 
     if let Some(r) = &args.replay {
+        if let Some(v) = r.strip_prefix("widerow ") {
+            run_wide_row(v.parse().expect("widerow <variant>"), &mut rep);
+            rep.write(&args.out);
+            return;
+        }
         if let Some(n) = r.strip_prefix("bigsst ") {
             run_big_sst(n.parse().expect("bigsst <n>"), &mut rep);
             rep.write(&args.out);
@@ -2454,6 +2582,12 @@ fn main() {
     // unit level
     sweeps(&args, &mut rng, &mut drv, &mut rep);
 
+    // rows as wide as the grid, and more than 16384 records under one row header
+    for v in 0..5 {
+        let t0 = std::time::Instant::now();
+        run_wide_row(v, &mut rep);
+        rep.add("time_ms_wide_row", t0.elapsed().as_millis() as u64);
+    }
     // large shared string tables: around 2^16 (16-bit counters) and one above 2^20 (caps on the declared count)
     for n in [65534usize, 65535, 65536, 65537, 65539, (1 << 20) + 3] {
         let t0 = std::time::Instant::now();
